@@ -305,6 +305,9 @@ static inline void chainCheck(const void* self)
   if(self == chainOwner && chainOwner) { chainOwner = 0; chainFn(); }
 }
 
+static unsigned long orcBits;
+static int orcLeft;
+
 struct Tracked : Obj
 {
   Tracked() { init(0); }
@@ -314,7 +317,13 @@ struct Tracked : Obj
   ~Tracked() { chainCheck(this); die(); }
   bool operator==(const Tracked& o) const { return read() == o.read(); }
   bool operator!=(const Tracked& o) const { return read() != o.read(); }
-  bool operator<(const Tracked& o) const { return read() < o.read(); }
+  // `L.sortwith`: the outcomes of the next comparisons are dictated (an arbitrary, possibly inconsistent comparator); both operands are still read
+  bool operator<(const Tracked& o) const
+  {
+    int a = read(), b = o.read();
+    if(orcLeft > 0) { bool r = orcBits & 1; orcBits >>= 1; --orcLeft; return r; }
+    return a < b;
+  }
   bool operator>(const Tracked& o) const { return read() > o.read(); }
   bool operator<=(const Tracked& o) const { return read() <= o.read(); }
   bool operator>=(const Tracked& o) const { return read() >= o.read(); }
@@ -327,6 +336,11 @@ struct Fixed : Obj
   Fixed() { init(0); }
   explicit Fixed(int p) { init(p); }
   Fixed(int p, int q) { init(p + q); }          // PoolList::append(A, B): in-place construction from two arguments
+  Fixed(int p, int q, int r) { init(p + q + r); }
+  Fixed(int p, int q, int r, int s) { init(p + q + r + s); }
+  Fixed(int p, int q, int r, int s, int t) { init(p + q + r + s + t); }
+  Fixed(int p, int q, int r, int s, int t, int u) { init(p + q + r + s + t + u); }
+  Fixed(int p, int q, int r, int s, int t, int u, int v) { init(p + q + r + s + t + u + v); }
   ~Fixed() { chainCheck(this); die(); }
   Fixed(const Fixed&) = delete;
   Fixed& operator=(const Fixed&) = delete;
@@ -744,6 +758,15 @@ int main(int argc, char** argv)
         *it = t;
         if(IterReg<TL>::E* e = regL.find((*it).serial)) e->ident = (int)a3;   // the caller overwrote the element: same object, new payload
       }
+      else if(IS("sort", 1) || IS("sortwith", 3))
+      {
+        if(op[4] == 'w') { NEED(a2 <= 24); orcLeft = (int)a2; orcBits = a3; }
+        c.sort();
+        orcLeft = 0;
+        // the caller asked for the values to be permuted: same objects, new payloads
+        for(TL::Iterator i = c.begin(), end = c.end(); i != end; ++i)
+          if(IterReg<TL>::E* e = regL.find((*i).serial)) e->ident = (*i).payload;
+      }
       else { bad(); continue; }
     }
     // ---- Map -----------------------------------------------------------------------------------
@@ -766,11 +789,14 @@ int main(int argc, char** argv)
       if(IS("insert", 3)) { Tracked tk((int)a2), tv((int)a3); c.insert(tk, tv); }
       else if(IS("insertref", 3)) { NEED(a3 < c.size()); Tracked tk((int)a2); c.insert(tk, *at(c, a3)); }
       else if(IS("inserthint", 4))
-      { // only with a key not yet present: inside a run of equal keys the position depends on the tree shape
+      { // every case but one: key not below the hinted item and equal to the key of its successor (then the landing place inside
+        // the run of equal keys depends on the size of the hinted node's right subtree)
         NEED(a2 <= c.size());
-        bool present = false;
-        for(TU::Iterator i = c.begin(), end = c.end(); i != end; ++i) if(i.key().read() == (int)a3) present = true;
-        NEED(!present);
+        if(a2 + 1 < c.size())
+        {
+          TU::Iterator p = at(c, a2), nx = at(c, a2 + 1);
+          NEED(!(p.key().read() <= (int)a3 && nx.key().read() == (int)a3));
+        }
         Tracked tk((int)a3), tv((int)a4);
         c.insert(at(c, a2), tk, tv);
       }
@@ -816,6 +842,19 @@ int main(int argc, char** argv)
       else if(IS("remove", 2)) { NEED(a2 < c.size()); c.remove(at(c, a2)); }
       else if(IS("removeref", 2)) { NEED(a2 < c.size()); c.remove(*at(c, a2)); }
       else if(IS("append2", 3)) c.append((int)a2, (int)a3);
+      else if(IS("appendn", 3))
+      { // PoolList::append with 3..7 constructor arguments (x, 1, 1, ...)
+        int x = (int)a3;
+        switch(a2)
+        {
+        case 3: c.append(x, 1, 1); break;
+        case 4: c.append(x, 1, 1, 1); break;
+        case 5: c.append(x, 1, 1, 1, 1); break;
+        case 6: c.append(x, 1, 1, 1, 1, 1); break;
+        case 7: c.append(x, 1, 1, 1, 1, 1, 1); break;
+        default: bad(); continue;
+        }
+      }
       else if(IS("removechain", 3))
       { // remove(element a2), whose destructor removes element a3 of the same pool
         NEED(a2 < c.size() && a3 < c.size() && a2 != a3);
